@@ -54,6 +54,11 @@ def job(workload, bin="race", arg="", procs=0, timeout=None, parts=1):
 def plan(pid, tier):
     T = tier == "thorough"
     P = {
+        "C01": [job("C01", "race", timeout=1500, parts=8)],
+        "C03": [job("C03", "race", timeout=1500, parts=8)],
+        "C04": [job("C04", "race", timeout=1500, parts=8)],
+        "C13": [job("C13", "race", timeout=1500, parts=8)],
+        "C17": [job("C17", "race", timeout=1500, parts=8)],
         "C10": [job("C10", "ptr", timeout=1500, parts=6)],
         "C11": [job("C11", "ptr", timeout=1500, parts=8)],
         "C12": [job("C12", "race", timeout=1500, parts=6), job("C12", "ptr", arg="bulk", timeout=1500, parts=6)],
